@@ -795,6 +795,15 @@ func (le *LockEngine) call(fn *Fn, c *ast.CallExpr, f Facts, isDefer, isGo bool,
 			}
 			held := ok && le.hasLock(f, base, q.Class, q.Mode)
 			if held {
+				// the callee touches guarded state of this object inside the caller's critical section
+				if q.Kind != "load" && f["S|"+base+"|"+q.Class] && rec {
+					fieldName := q.Field
+					if fieldName == "" {
+						fieldName = q.Kind
+					}
+					le.Splits = append(le.Splits, splitRec{Fn: fn, Pos: c.Pos(), Field: fieldName, Base: base})
+				}
+				f["T|"+base+"|"+q.Class] = true
 				if rec {
 					le.Accesses = append(le.Accesses, lockAccess{Fn: q.Fn, Pos: q.Pos, Kind: q.Kind, Base: base, Class: q.Class, Mode: q.Mode, Held: true,
 						Via: fmt.Sprintf("held by caller %s at %s", fn.Name, le.p.Pos(c.Pos())), Expr: q.Why, Field: nil})
